@@ -8,7 +8,7 @@ import json
 import re
 from terms import (K, TRUE, FALSE, USIZE, Unsupported, Infeasible, Know, mask, width, is_const,
                    mk_bv, mk_lin, bits_of, lin_of, mk_cmp, t_not, bitop, shl, shr, cast_bits,
-                   show_term, show_atom, show_name, mk_not)
+                   show_term, show_atom, show_name, mk_not, intern_op)
 
 UNIT = ('unit',)
 UNINIT = ('uninit',)
@@ -91,7 +91,7 @@ class State:
     def clone(self):
         s = State.__new__(State)
         s.frames = [f.clone() for f in self.frames]
-        s.perm = dict((k, f.clone()) for k, f in self.perm.items())     # permanent slots are mutable too (FnMut closure state)
+        s.perm = dict(self.perm)        # shared frames, copied on write (frame_mut): FnMut closure state lives here
         s.heap = dict(self.heap)
         s.know = self.know.clone()
         s.effects = list(self.effects)
@@ -114,6 +114,18 @@ class State:
         f = self.perm.get(fid)
         if f is None:
             raise Unsupported('dangling reference to frame %d' % fid)
+        return f
+
+    def frame_mut(self, fid):
+        """The frame `fid` for writing: permanent slots are shared between cloned states and copied on write."""
+        for f in reversed(self.frames):
+            if f.fid == fid:
+                return f
+        f = self.perm.get(fid)
+        if f is None:
+            raise Unsupported('dangling reference to frame %d' % fid)
+        f = f.clone()
+        self.perm[fid] = f
         return f
 
 
@@ -290,6 +302,10 @@ class Interp:
                 idx = p[1]
                 if kind == 'array':
                     if not is_const(idx):
+                        tl = self.table_lookup(st, v, idx) if i == len(proj) - 1 else None
+                        if tl is not None:
+                            v = tl
+                            continue
                         idx = self.split_index(st, idx, len(v[1]))
                     if idx[2] >= len(v[1]):
                         raise Unsupported('index %d out of array bounds %d (missing bounds check?)' % (idx[2], len(v[1])))
@@ -310,7 +326,7 @@ class Interp:
     def write(self, st, target, val):
         root, proj = target
         if root[0] == 'local':
-            fr = st.frame(root[1])
+            fr = st.frame_mut(root[1])
             old = fr.locals.get(root[2], UNINIT)
             fr.locals[root[2]] = self._update(st, old, proj, val)
         else:
@@ -421,6 +437,31 @@ class Interp:
         for l, c in tb.items():
             d[l] = d.get(l, 0) - c
         return mk_lin(width(a), ca - cb, d)
+
+    def table_lookup(self, st, arr, idx):
+        """A constant table of integers indexed by a value that can still take many values (a CRC or S-box table indexed by
+        a data byte): the element is an uninterpreted but determined function of the index - no 256-way fork.  Small index
+        ranges are still enumerated (split_index), which is what the rules want for command-code tables."""
+        cells = arr[1]
+        if len(cells) < 65 or not all(c[0] == 'k' for c in cells):
+            return None
+        idx = self.conc(st, idx)
+        if is_const(idx):
+            return None
+        c0, ts = lin_of(idx)
+        lo, hi = st.know.interval(c0, ts)
+        lo, hi = max(lo, 0), min(hi, len(cells) - 1)
+        if hi - lo < 64 or hi > len(cells) - 1:
+            return None
+        ws = set(c[1] for c in cells)
+        if len(ws) != 1:
+            return None
+        w = ws.pop()
+        if st.know.interval(c0, ts)[1] > len(cells) - 1:
+            return None         # the index may be out of bounds: let the ordinary path report it
+        key = intern_op(('tbl', tuple(c[2] for c in cells), idx))
+        leaf = ('opq', w, 'op', key)
+        return mk_bv(w, tuple((leaf, i) for i in range(w)))
 
     def split_index(self, st, idx, n):
         """A symbolic index into an array of n cells: enumerate its feasible values (forks), return the constant."""
@@ -867,6 +908,8 @@ class Interp:
             if v[0] == 'ref':
                 return ('dynref', v[1])
             raise Unsupported('unsize of %s' % v[0])
+        if ck.startswith('PointerCoercion(ReifyFnPointer') and v[0] == 'fn' and v[1]:
+            return v            # a function item used as a function pointer: the pointer names the function
         if ck in ('PtrToPtr', 'Transmute') or ck.startswith('PointerCoercion'):
             raise Unsupported('cast %s' % ck)
         raise Unsupported('cast %s' % ck)
@@ -1362,6 +1405,17 @@ class Interp:
                 return True, ('adt', ret_ty['id'], 0, ())
             self.write(st, ref[1], newit)
             return True, ('adt', ret_ty['id'], 1, (item,))
+        if P in ('core::slice::<impl [T]>::split_at_checked', 'core::slice::<impl [T]>::split_at_mut_checked',
+                 'core::slice::<impl [T]>::split_at_unchecked', 'core::slice::<impl [T]>::split_at_mut_unchecked') and args[0][0] == 'slice':
+            sl, mid = args
+            ln = self.slice_len(sl)
+            pair = ('tuple', (('slice', sl[1], sl[2], self.add(sl[2], mid)), ('slice', sl[1], self.add(sl[2], mid), sl[3])))
+            if P.endswith('_unchecked'):
+                return True, pair
+            ret_ty = self.prog.instances[callee['key']]['sig']['output']
+            if self.need(st, mk_cmp('Le', mid, ln)):
+                return True, ('adt', ret_ty['id'], 1, (pair,))
+            return True, ('adt', ret_ty['id'], 0, ())
         if P in ('core::slice::<impl [T]>::split_at', 'core::slice::<impl [T]>::split_at_mut'):
             sl, mid = args
             if sl[0] != 'slice':
@@ -1641,8 +1695,15 @@ class Interp:
                 return True, ('adt', ret_ty['id'], 1, (rest,))
             return True, ('adt', ret_ty['id'], 0, ())
         # --- Cell
-        if P == 'core::cell::Cell::<T>::new':
+        if P == 'core::cell::Cell::<T>::new' or P.endswith('core::convert::From<T> for core::cell::Cell<T>>::from') or \
+                P == '<core::cell::Cell<T> as core::convert::From<T>>::from':
             return True, ('model', 'cell', args[0])
+        if P in ('<core::cell::Cell<T> as core::default::Default>::default', 'core::cell::<impl core::default::Default for core::cell::Cell<T>>::default'):
+            mt = re.search(r'Cell<([ui](8|16|32|64|size)|bool)>', callee.get('key') or '')
+            if not mt:
+                return False, None
+            bits_ = 1 if mt.group(1) == 'bool' else (64 if mt.group(2) == 'size' else int(mt.group(2)))
+            return True, ('model', 'cell', K(bits_, 0))
         if P in ('core::cell::Cell::<T>::get', 'core::cell::Cell::<T>::replace', 'core::cell::Cell::<T>::take'):
             c0_ = self.read(st, args[0][1])
             if c0_[0] == 'model' and c0_[1] == 'cell' and c0_[2][0] == 'lazyinit':
@@ -1655,7 +1716,7 @@ class Interp:
                     raise Infeasible()
                 root_, proj_ = args[0][1]
                 if root_[0] == 'local':
-                    frm_ = st.frame(root_[1])
+                    frm_ = st.frame_mut(root_[1])
                     frm_.locals[root_[2]] = self._update(st, frm_.locals[root_[2]], proj_, ('model', 'cell', content))
                 else:
                     st.heap[root_[1]] = self._update(st, st.heap[root_[1]], proj_, ('model', 'cell', content))
@@ -1673,7 +1734,7 @@ class Interp:
             root, proj = args[0][1]
             # a Cell is written through a shared reference: update in place, record the effect
             if root[0] == 'local':
-                frm = st.frame(root[1])
+                frm = st.frame_mut(root[1])
                 frm.locals[root[2]] = self._update(st, frm.locals[root[2]], proj, ('model', 'cell', args[1]))
             else:
                 st.heap[root[1]] = self._update(st, st.heap[root[1]], proj, ('model', 'cell', args[1]))
@@ -1692,7 +1753,7 @@ class Interp:
             name = self.describe_target(st, args[0][1])
             root, proj = args[0][1]
             if root[0] == 'local':
-                frm = st.frame(root[1])
+                frm = st.frame_mut(root[1])
                 frm.locals[root[2]] = self._update(st, frm.locals[root[2]], proj, ('model', 'cell', zero))
             else:
                 st.heap[root[1]] = self._update(st, st.heap[root[1]], proj, ('model', 'cell', zero))
@@ -2009,6 +2070,7 @@ class Interp:
                 pos += 1
             elif meth == 'find':
                 r = self.call_sync(st, ckey, [fref, ('tuple', (('ref', (('local', slot.fid, 1), ())),))]) if False else None
+                slot = st.frame_mut(slot.fid)
                 slot.locals[1] = item
                 r = self.call_sync(st, ckey, [fref, ('tuple', (('ref', (('local', slot.fid, 1), ())),))])
                 if self.need(st, r):
@@ -2330,6 +2392,13 @@ class Interp:
 
     def call(self, st, fr, t, leaves):
         callee = t['callee']
+        if callee.get('kind') == 'indirect' and t.get('fn_operand'):
+            fv = self.operand(st, fr, t['fn_operand'])
+            if fv[0] == 'fn' and fv[1]:
+                callee = fv[1]          # a call through a function pointer whose target is known on this path
+                t = dict(t, callee=callee)
+            else:
+                raise Unsupported('call through a function pointer of unknown target (%s)' % fv[0])
         path = callee['path']
         args = [self.operand(st, fr, a) for a in t['args']]
         handled, val = self.call_model(st, fr, path, callee, args, t)
